@@ -279,7 +279,7 @@ var c15 = &h.Campaign[UpdaterCase]{
 				o.Both = rapid.IntRange(0, 3).Draw(rt, "both") == 0
 			}
 			return o
-		}), 1, 40).Draw(rt, "ops"), FailWrite: rapid.SampledFrom([][]int{nil, nil, {2}, {2, 3}, {3, 5, 6}, {1, 2, 3, 4, 5, 6, 7, 8, 9}}).Draw(rt, "failwrite")}
+		}), h.LenBias(rt, 1, 40), 40).Draw(rt, "ops"), FailWrite: rapid.SampledFrom([][]int{nil, nil, {2}, {2, 3}, {3, 5, 6}, {1, 2, 3, 4, 5, 6, 7, 8, 9}}).Draw(rt, "failwrite")}
 	},
 	Run: runC15,
 }
